@@ -1,7 +1,7 @@
 ------------------------------- MODULE MC_C14 -------------------------------
 EXTENDS JasmSession, JasmPattern, TLC
 \* the rule documents of the C14 universe differ in exactly the state-bearing features
-RuleIds == {"plain", "mfm", "ofm", "range", "range2", "sections", "sections2", "style", "caps", "macros", "xmacros", "xlib_a", "xlib_b", "bigrange"}
+RuleIds == {"plain", "mfm", "ofm", "range", "range2", "sections", "sections2", "style", "caps", "macros", "xmacros", "xlib_a", "xlib_b", "bigrange", "hexint"}
 CfgTable == [r \in RuleIds |->
     CASE r = "mfm"      -> RuleCfg("T", "-", "-", <<>>, <<>>)
       [] r = "ofm"      -> RuleCfg("F", "T", "-", <<>>, <<>>)
@@ -24,6 +24,9 @@ PatternOf(r) ==
       [] r = "style"    -> PAnd(<<I("ret")>>)
       [] r = "caps"     -> PAnd(<<PIns("push", <<OCap("x")>>), PIns("pop", <<OCap("x")>>)>>)
       [] r = "macros"   -> PAnd(<<I("@m")>>)
+      \* hexint: the harness writes the operand as the unquoted YAML scalar 0x8, which YAML reads as the integer 8
+      \* (so the name is "8", found inside 401008) -- as long as nothing has changed how YAML scalars are read
+      [] r = "hexint"   -> PAnd(<<PIns("call", <<OLit("8")>>)>>)
       \* an expensive rule (120 orderings, a regex of more than 16 000 characters) whose result depends on its range
       [] r = "bigrange" -> PAnd(<<PPerm(<<I("push"), PIns("call", <<OLit("valid_addr")>>), I("pop"), I("ret"), I("call")>>)>>)
       [] OTHER          -> PAnd(<<I("@m")>>)                         \* xmacros: @m comes from an extra macro file
@@ -37,7 +40,7 @@ Listing == << Ins("401000", "push", <<"%rbx">>), Ins("401001", "call", <<"401008
 \* which inputs an operation on rule r is run on ("text": the listing above; "bin": an object file
 \* with an executable .text and an executable .foo section, built by the harness)
 InputsOf(r) == IF r \in {"sections", "sections2", "plain", "style"} THEN {"text", "bin"} ELSE {"text"}
-RuleSeq == <<"plain", "mfm", "ofm", "range", "range2", "sections", "sections2", "style", "caps", "macros", "xmacros", "xlib_a", "xlib_b", "bigrange">>
+RuleSeq == <<"plain", "mfm", "ofm", "range", "range2", "sections", "sections2", "style", "caps", "macros", "xmacros", "xlib_a", "xlib_b", "bigrange", "hexint">>
 Export == [rules |-> [n \in DOMAIN RuleSeq |->
                         [id |-> RuleSeq[n], cfg |-> CfgTable[RuleSeq[n]], pattern |-> PatternOf(RuleSeq[n]),
                          macros |-> MacrosOf(RuleSeq[n]), xmacros |-> XMacrosOf(RuleSeq[n]),
